@@ -235,7 +235,9 @@ def edges_view(g, data=None, src=None, dst=None):
         return c
 
     def plan(engine, st):
-        u, v = S.fresh("eu", V), S.fresh("ev", V)
+        u = src if src is not None else S.fresh("eu", V)
+        v = dst if dst is not None else S.fresh("ev", V)
+        vars_ = [x for x, fixed in ((u, src), (v, dst)) if fixed is None]
 
         def decode(s):
             items = [sv_v(u, TAny), sv_v(v, TAny)]
@@ -245,7 +247,10 @@ def edges_view(g, data=None, src=None, dst=None):
                 items.append(sv_v(g.t[3][u, v][V.str_(data)], TAny))
             return s, sv_tuple(items)
 
-        yield st, Plan("setlike", vars=[u, v], mem=mem(u, v), decode=decode, key=V.pair(u, v))
+        if not vars_:
+            raise OutsideSubset("edges view with both endpoints fixed")
+        key = V.pair(u, v) if len(vars_) == 2 else vars_[0]
+        yield st, Plan("setlike", vars=vars_, mem=g.t[2][u, v], decode=decode, key=key)
 
     d = {"name": "edges", "plan": plan, "graph": g}
     if data is None and src is None and dst is None:
